@@ -129,7 +129,8 @@ class _Prog(nn.Module):
         if self._record is not None:
             self._record.update(vals)
         y = vals[self._prog['out']]
-        # the network may hand its output back inside a one-element container
+        # the network may hand its output back inside a one-element container, or return a second
+        # tensor (`out2`: any tensor of the program) next to it
         oc = self._prog.get('out_container')
         if oc == 'tuple1':
             return (y,)
@@ -137,16 +138,42 @@ class _Prog(nn.Module):
             return [y]
         if oc == 'dict1':
             return {'logits': y}
+        if oc == 'tuple2':
+            return y, vals[self._prog['out2']]
+        if oc == 'list2':
+            return [vals[self._prog['out2']], y]
+        if oc == 'dict2':
+            return {'logits': y, 'aux': vals[self._prog['out2']]}
         return y
 
 
 def out_tensor(y):
-    """the output tensor of a program, whatever one-element container it comes in"""
+    """the output of a program as ONE tensor, whatever container it comes in: a single tensor as it
+    is; several tensors flattened per sample and concatenated in a canonical order (so that shape and
+    value comparisons cover every output)"""
     if isinstance(y, dict):
-        return next(iter(y.values()))
-    if isinstance(y, (tuple, list)):
-        return y[0]
-    return y
+        parts = [y[k] for k in sorted(y)]
+    elif isinstance(y, (tuple, list)):
+        parts = list(y)
+    else:
+        return y
+    if len(parts) == 1:
+        return parts[0]
+    return torch.cat([t.flatten(1) for t in parts], 1)
+
+
+def add_second_output(prog, rng):
+    """the same network also returning one of its intermediate tensors (tuple / list / dict of two):
+    the layers that tensor's width is tied to become output-connected, too"""
+    pre_bn = {op['src'] for op in prog['ops'] if op['op'] == 'bn'}     # PLiNIO refuses a second user
+    cands = [op['out'] for op in prog['ops'] if op['out'] != prog['out'] and
+             op['out'] not in pre_bn and op['op'] in ('conv', 'lin', 'act', 'bn', 'add', 'pool')]
+    if not cands or prog.get('out_container'):
+        return prog
+    prog['out2'] = rng.choice(cands)
+    prog['out_container'] = rng.choice(['tuple2', 'list2', 'dict2'])
+    prog['features'] = sorted(set(prog['features']) | {'two-outputs', 'output-in-container'})
+    return prog
 
 
 def _user_pit_layer(layer, op):
